@@ -10,6 +10,7 @@ extern "C" void harness() {
   int id[6];
   for (int i = 0; i < 6; i++) { nodes[i]->path_ = names[i]; id[i] = vf_register_path(nodes[i]->path_); st.vf_nodes[st.vf_nn++] = nodes[i]; }
   r0.name_ = "r0"; r1.name_ = "r1";
+  r0.vf_generator = nondet_bool(); r1.vf_generator = nondet_bool();      /* constrained below: a rule-level generator binding makes every statement of the rule a generator statement */
   Edge* es[3] = { &e0, &e1, &e2 };
   static Rule rphony; rphony.name_ = "phony";
   e0.rule_ = &r0; e1.rule_ = &r1; e2.rule_ = PHONY2 ? &rphony : &r0;      /* a phony statement uses the built-in phony rule */
@@ -27,6 +28,7 @@ extern "C" void harness() {
     if ((RSPMASK >> i) & 1) { es[i]->vf_rspfile = rsps[i]; id_rsp[i] = vf_register_path(es[i]->vf_rspfile); }
     if (nondet_bool()) es[i]->vf_deps = "gcc";                /* whether the statement uses deps = gcc is irrelevant to cleaning */
   }
+  for (int i = 0; i < 3; i++) __CPROVER_assume(!const_cast<Rule*>(es[i]->rule_)->vf_generator || es[i]->vf_generator);
   for (int i = 0; i < VF_PATHS; i++) {
     long r = nondet_long(); __CPROVER_assume(r >= -1 && r <= 1); disk.vf_remove_ret[i] = r;
     long s = nondet_long(); __CPROVER_assume(s >= -1 && s <= 100); disk.vf_stat_ret[i] = s;
